@@ -18,22 +18,57 @@ fn lib_result(bytes: &[u8]) -> Value {
     }
 }
 
+/// Runs a command with stdout / stderr redirected to files and a deadline ("the command-line disassembler terminates").
+/// Returns None when the deadline passed (the child is killed).
+fn run_with_deadline(cmd: &mut Command, tag: &str, secs: u64) -> std::io::Result<Option<(std::process::ExitStatus, Vec<u8>, Vec<u8>)>> {
+    let (po, pe) = (format!("{}.out", tag), format!("{}.err", tag));
+    let mut child = cmd.stdout(std::fs::File::create(&po)?).stderr(std::fs::File::create(&pe)?).spawn()?;
+    let t0 = std::time::Instant::now();
+    let status = loop {
+        if let Some(st) = child.try_wait()? { break Some(st); }
+        if t0.elapsed().as_secs() >= secs { let _ = child.kill(); let _ = child.wait(); break None; }
+        std::thread::sleep(std::time::Duration::from_millis(if t0.elapsed().as_millis() < 50 { 1 } else { 20 }));
+    };
+    let (o, e) = (std::fs::read(&po).unwrap_or_default(), std::fs::read(&pe).unwrap_or_default());
+    let _ = std::fs::remove_file(&po); let _ = std::fs::remove_file(&pe);
+    Ok(status.map(|st| (st, o, e)))
+}
+
+/// `vh lib-result <file>`: the library's own result on the file, as JSON (run as a child so that a hang of the library
+/// is observed as a timeout instead of hanging the harness)
+pub fn lib_result_cmd(args: &[String]) {
+    let bytes = std::fs::read(&args[0]).expect("read");
+    println!("{}", lib_result(&bytes));
+}
+
+const DEADLINE_S: u64 = 20;
+
 fn run_one(bin: &str, dir: &str, k: usize, bytes: &[u8], tag: &str) -> Value {
     let path = format!("{}/f{}.spv", dir, k);
     std::fs::write(&path, bytes).expect("write corpus file");
-    let o = Command::new(bin).arg(&path).output();
+    let o = run_with_deadline(Command::new(bin).arg(&path), &format!("{}/f{}.dis", dir, k), DEADLINE_S);
+    let me = std::env::current_exe().expect("current_exe");
+    let lib = match run_with_deadline(Command::new(me).arg("lib-result").arg(&path), &format!("{}/f{}.lib", dir, k), DEADLINE_S) {
+        Ok(Some((st, out, _))) if st.success() => serde_json::from_slice::<Value>(&out).unwrap_or(json!({"st": "garbled", "text": "", "one_line": true})),
+        Ok(Some(_)) => json!({"st": "crashed", "text": "", "one_line": true}),
+        Ok(None) => json!({"st": "timeout", "text": "", "one_line": true}),
+        Err(e) => json!({"st": "spawn-failed", "text": e.to_string(), "one_line": true}),
+    };
     let _ = std::fs::remove_file(&path);
-    match o {
-        Err(e) => json!({"ev": "run", "tag": tag, "st": "spawn-failed", "err": e.to_string()}),
-        Ok(o) => {
-            let stderr = String::from_utf8_lossy(&o.stderr).to_string();
-            json!({"ev": "run", "tag": tag, "st": "ran", "len": bytes.len(), "bytes": if bytes.len() <= 400 { jbytes(bytes) } else { json!([]) },
-                   "status": o.status.code().map(|c| json!([c])).unwrap_or(json!([])), "signal": o.status.signal().map(|s| json!([s])).unwrap_or(json!([])),
-                   "stdout": String::from_utf8_lossy(&o.stdout), "stdout_utf8": std::str::from_utf8(&o.stdout).is_ok(),
-                   "stderr_panicked": stderr.contains("panicked"), "stderr_head": stderr.chars().take(200).collect::<String>(),
-                   "lib": lib_result(bytes)})
+    let head = json!({"ev": "run", "tag": tag, "len": bytes.len(), "bytes": if bytes.len() <= 400 { jbytes(bytes) } else { json!([]) }, "lib": lib});
+    let mut ev = match o {
+        Err(e) => json!({"st": "spawn-failed", "err": e.to_string()}),
+        Ok(None) => json!({"st": "timeout", "status": [], "signal": [], "stdout": "", "stdout_utf8": true, "stderr_panicked": false, "stderr_head": format!("no exit within {} s", DEADLINE_S)}),
+        Ok(Some((status, stdout, stderr))) => {
+            let stderr = String::from_utf8_lossy(&stderr).to_string();
+            json!({"st": "ran",
+                   "status": status.code().map(|c| json!([c])).unwrap_or(json!([])), "signal": status.signal().map(|s| json!([s])).unwrap_or(json!([])),
+                   "stdout": String::from_utf8_lossy(&stdout), "stdout_utf8": std::str::from_utf8(&stdout).is_ok(),
+                   "stderr_panicked": stderr.contains("panicked"), "stderr_head": stderr.chars().take(200).collect::<String>()})
         }
-    }
+    };
+    for (k, v) in head.as_object().unwrap() { ev[k] = v.clone(); }
+    ev
 }
 
 pub fn drive(args: &[String]) {
@@ -91,6 +126,35 @@ pub fn drive(args: &[String]) {
         corpus.push((enc(&ext), "extinst"));
         // one file per number too, so that one crash does not hide the others
         for k in 0..72 { let mut one_ext = ext[..7].to_vec(); one_ext.push(ext[7 + k].clone()); one_ext.extend(ext[ext.len() - 2..].iter().cloned()); corpus.push((enc(&one_ext), "extinst")); }
+    }
+    // strings that are not UTF-8, with and without line feeds / carriage returns in front of the offending byte (the loading
+    // error must stay a one-line message whatever the string holds)
+    {
+        let strs: Vec<&[u8]> = vec![b"a\nb\xffc", b"\n\xff", b"\xff\nabc", b"line1\r\nline2\xc3", b"ok\nfine", b"\xf0\x9f\n", b"abc\n\n\n\xfe\xff", b"\x80"];
+        for bs in strs {
+            for op in [7u32, 5, 10, 11, 4] {
+                let mut ops = vec![];
+                if op == 5 { ops.push(SOp::one("IdRef", 3)); }
+                ops.push(SOp { k: "LiteralString".into(), w: vec![], s: Some(bs.to_vec()) });
+                let inst = SInst { op, rt: None, rid: if op == 7 || op == 11 { Some(1) } else { None }, ops };
+                corpus.push((enc(&[inst]), "bad-strings"));
+            }
+        }
+    }
+    // ids that are their own result type / cyclic type chains, then literals and switches typed by them
+    {
+        let one = |k: &str, w: u32| SOp::one(k, w);
+        for (a, b) in [(1u32, 1u32), (1, 2)] {
+            let cyc = vec![
+                SInst { op: 1, rt: Some(b), rid: Some(a), ops: vec![] }, SInst { op: 1, rt: Some(a), rid: Some(b), ops: vec![] },
+                SInst { op: 43, rt: Some(a), rid: Some(3), ops: vec![one("LiteralBit32", 7)] },
+                SInst { op: 19, rt: None, rid: Some(6), ops: vec![] }, SInst { op: 33, rt: None, rid: Some(7), ops: vec![one("IdRef", 6)] },
+                SInst { op: 54, rt: Some(6), rid: Some(8), ops: vec![one("FunctionControl", 0), one("IdRef", 7)] }, SInst { op: 248, rt: None, rid: Some(9), ops: vec![] },
+                SInst { op: 251, rt: None, rid: None, ops: vec![one("IdRef", b), one("IdRef", 9), one("LiteralBit32", 1), one("IdRef", 9)] },
+                SInst { op: 56, rt: None, rid: None, ops: vec![] }];
+            corpus.push((enc(&cyc), "cyclic-types"));
+            corpus.push((enc(&cyc[..3]), "cyclic-types"));
+        }
     }
     // OpSpecConstantOp embedding every opcode number with 0..5 operand words (sampled)
     let mut opnums: Vec<u32> = g.insts.keys().cloned().collect();
